@@ -7,6 +7,7 @@ TreeInfo model:
 """
 import copy
 import hashlib
+import json
 import posixpath
 import re
 
@@ -112,6 +113,11 @@ def ti_variant_validity(model, vid, parent):
         return INVALID, "variant.type:enum"
     if parent == "top" and v["type"] == "addon":
         return UNSPEC, "variant.toplevel-addon"
+    if not isinstance(v.get("name"), str):
+        return INVALID, "variant.name:type"           # documented as <str> (no validator of its own: the INI writer refuses it)
+    for k, val in sorted(v["paths"].items()):
+        if val and not isinstance(val, str):
+            return INVALID, "variant.paths:type"      # (a falsy value counts as "not set")
     if not ini_text_ok(v.get("name")) or not ini_name_ok(u) or not ini_text_ok(i) or "," in u:
         return UNSPEC, "variant.text:not-ini"
     for k, val in v["paths"].items():
@@ -176,6 +182,8 @@ def ti_validity(model):
             return INVALID, "stage2.mainimage:type"
         if s2["mainimage"].startswith("/"):
             return INVALID, "stage2.mainimage:absolute"
+    if s2.get("instimage") and not isinstance(s2["instimage"], str):
+        return INVALID, "stage2.instimage:type"
     for f in ("mainimage", "instimage"):
         if s2.get(f) and not ini_text_ok(s2[f]):
             take(UNSPEC, "stage2:not-ini")
@@ -365,8 +373,8 @@ class TIMachine(FormatMachine):
         vid = str(op.get("var"))
         if s is None or vid not in s.pool:
             return "noop"
-        setattr(s.pool[vid].paths, op["kind"], op["value"])
-        s.model["vars"][vid]["paths"][op["kind"]] = op["value"]
+        setattr(s.pool[vid].paths, op["kind"], dec(op["value"]))
+        s.model["vars"][vid]["paths"][op["kind"]] = dec(op["value"])
         return "ok"
 
     def op_ti_var_add(self, op):
@@ -972,6 +980,64 @@ class TIMachine(FormatMachine):
             raise Violation("C05", "C05.written_as_current", "upgrade-written-with-wrong-header/treeinfo/pre-productmd-synth", {"header": hdr})
         if not isinstance(new.tree.build_timestamp, float) and first != second:
             raise Violation("C05", "C05.conversion_happens_once", "second-write-differs/treeinfo/pre-productmd-synth", {})
+        return "ok"
+
+    # ---- C05: recorded reference behaviour of the pre-productmd reader (golden/treeinfo-pre-productmd.json) -------------
+    _GOLDEN = [None]
+
+    def op_ti_golden(self, op):
+        """The release-specific rules of the header-less reader (RHEL 3/4/5/6 layouts, Fedora, CentOS, unknown families...)
+        are documented nowhere but in the reader itself; the result recorded on the tree as fixed is the reference model:
+        the same legacy file must still be converted to the same facts, and the converted object must survive the
+        write / re-load / second-write cycle."""
+        import os
+        if self._GOLDEN[0] is None:
+            from ..core import VERIF
+            with open(os.path.join(VERIF, "golden", "treeinfo-pre-productmd.json")) as f:
+                self._GOLDEN[0] = json.load(f)["cases"]
+        cases = self._GOLDEN[0]
+        c = cases[op.get("k", 0) % len(cases)]
+        path = self.path(op)
+        self.fs.put(path, c["doc"])
+        CTX.fault("F8.older_format_on_disk")
+        via = op.get("via", "path")
+        new = self.new_obj()
+        try:
+            if via == "loads":
+                new.loads(c["doc"])
+            elif via == "handle":
+                with open(path, "r") as fo:
+                    new.load(fo)
+            else:
+                new.load(self.arg(path))
+        except Exception as e:
+            if isinstance(e, HarnessError):
+                raise
+            raise Violation("C05", "C05.older_document_accepted", "older-document-rejected/treeinfo/golden/%s" % exc_class(e), {"msg": str(e)[:160], "k": op.get("k")})
+        got = observe_ti(new)
+        if isinstance(got["tree"]["build_timestamp"], float):
+            got["tree"]["build_timestamp"] = repr(got["tree"]["build_timestamp"])
+        self.count("C05", ["golden", sorted(c["want"]["forest"])[:2], c["want"]["release"]["short"], c["want"]["tree"]["arch"] == "src"])
+        d = first_diff(c["want"], got)
+        if d:
+            raise Violation("C05", "C05.upgrade_carries_same_facts", "upgrade-differs/treeinfo/golden/%s" % diff_key(d), {"diff": d, "k": op.get("k")})
+        out = path + ".converted"
+        try:
+            new.dump(out)
+            first = self.fs.get(out)
+            again = self.new_obj()
+            again.load(out)
+            again.dump(out + "2")
+            second = self.fs.get(out + "2")
+        except Exception as e:
+            if isinstance(e, HarnessError):
+                raise
+            raise Violation("C05", "C05.upgraded_object_round_trips", "upgraded-object-unwritable/treeinfo/golden/%s" % exc_class(e), {"msg": str(e)[:160], "k": op.get("k")})
+        d = first_diff(self.observe(new), self.observe(again))
+        if d:
+            raise Violation("C05", "C05.upgraded_object_round_trips", "reload-after-upgrade-differs/treeinfo/golden/%s" % diff_key(d), {"diff": d, "k": op.get("k")})
+        if not isinstance(new.tree.build_timestamp, float) and first != second:
+            raise Violation("C05", "C05.conversion_happens_once", "second-write-differs/treeinfo/golden", {"k": op.get("k")})
         return "ok"
 
     # ---- C17: a pre-productmd reader given only the compatibility sections ---------------------------------------
